@@ -564,6 +564,19 @@ def install_arrays(reg: Registry):
             return B(False)                   # a real number is not NaN (A-REAL)
         return _isnan_real(i, a, k, n)
 
+    def _xinf_test(which):
+        def h(i, a, k, n):
+            x = a[0]
+            if isinstance(x, Arr) and x.elem == "xreal":
+                f = X.is_ninf if which == "neg" else X.is_pinf
+                return Arr(x.n, "bool", lambda kk, _at=x.at: f(_at(kk)), f"is{which}inf({x.key})", x.meta)
+            if isinstance(x, Arr):
+                return Arr(x.n, "bool", lambda kk: z3.BoolVal(False), f"is{which}inf({x.key})", x.meta)        # reals are finite (A-REAL)
+            raise Unsupported(f"xp.is{which}inf of {x!r}")
+        return h
+    reg.handlers["xp.isneginf"] = _xinf_test("neg")
+    reg.handlers["xp.isposinf"] = _xinf_test("pos")
+
     unary("isinf", uf("isinf", RS, BS), "bool")
     _isinf_real = reg.handlers["xp.isinf"]
 
@@ -1060,6 +1073,8 @@ def install_builtins(reg: Registry):
     def h_list(i, a, k, n):
         if a and isinstance(a[0], SymList):
             return a[0]
+        if a and isinstance(a[0], Sym) and a[0].tag == "params":
+            return a[0]                     # an opaque list of parameter names: list() of it is an equal list
         return PyList(i.iterate(a[0], n)) if a else PyList([])
 
     @H("dict")
@@ -1467,6 +1482,15 @@ def install_random(reg: Registry):
         idx = Arr(nn, "int", lambda kk: f(kk), fresh("idx"))
         i.path.event("rng.choice", gen, aa, size, replace, p, idx)
         return idx
+
+    @H("rng.spawn")
+    def rng_spawn(i, a, k, n):
+        assumed(i, "Generator.spawn(n): n new child generators; which children depends on a spawn counter that is not part of bit_generator.state")
+        gen = a[0]
+        m = i.concrete_int(a[1], n) if len(a) > 1 else 1
+        kids = [Sym(z3.Const(fresh("spawned_child_rng"), Misc), "rng", {"child_of": gen}) for _ in range(m)]
+        i.path.event("rng.spawn", gen, kids)
+        return PyList(kids)
 
     @H("rng.uniform")
     def rng_uniform(i, a, k, n):
